@@ -868,11 +868,13 @@ def walk_main(jpath):
     w.start([tuple(r) for r in job["roots"]])
 
 
-def tlc_graph(run, cfg, label, c11=False, **kw):
+def tlc_graph(run, cfg, label, c11=False, off=(), **kw):
     res = run_tlc("Session", cfg, coverage="simulate" not in kw, timeout=3000, **kw)
     for a in ("GenEdge", "GenDone"):
         if not c11:
             res.coverage.pop(a, None)      # the generator is off in c10 mode
+    for a in off:
+        res.coverage.pop(a, None)          # actions the cfg switches off by its bounds
     res.coverage.pop("NextE", None)
     run.add_tlc(res, label)
     never = [a for a, n in res.coverage.items() if n == 0]
